@@ -1262,3 +1262,191 @@ Proof.
   intros raw Hraw. apply (coord_names_distinct specs inputs loadable li o raw); [|assumption].
   now apply wf_names_nocolon.
 Qed.
+
+(* ================================================================ slicing: what `nd_index a (slice_key ..)` returns *)
+Lemma mapM_total {A B} (f : A -> result B) l :
+  (forall x, In x l -> exists y, f x = Ok y) -> exists r, mapM f l = Ok r.
+Proof.
+  induction l as [|x l IH]; intros H; cbn; [now exists []|].
+  destruct (H x (or_introl eq_refl)) as [y ->]. cbn.
+  destruct IH as [r ->]; [intros z Hz; apply H; now right|]. cbn. now eexists.
+Qed.
+
+Lemma Forall2_nth {A B} (R : A -> B -> Prop) l r : Forall2 R l r ->
+  forall i a, nth_error l i = Some a -> exists b, nth_error r i = Some b /\ R a b.
+Proof.
+  induction 1 as [|x y l r Hxy H IH]; intros i a Hi; [now destruct i|].
+  destruct i as [|i]; cbn in *.
+  - injection Hi as <-. now exists y.
+  - now apply IH.
+Qed.
+
+Lemma all_indices_nth sh j : in_bounds sh j = true -> nth_error (all_indices sh) (ravel sh j) = Some j.
+Proof.
+  intros Hb. rewrite <- unravel_enumerates, nth_error_map, nth_error_seq.
+  pose proof (ravel_lt sh j Hb) as Hlt. apply Nat.ltb_lt in Hlt. rewrite Hlt. cbn.
+  now rewrite unravel_ravel.
+Qed.
+
+Lemma all_indices_in_bounds sh j : In j (all_indices sh) -> in_bounds sh j = true.
+Proof.
+  rewrite <- unravel_enumerates. intros H. apply in_map_iff in H as [m [<- Hm]].
+  apply in_seq in Hm. apply unravel_in_bounds. lia.
+Qed.
+
+Lemma in_bounds_length sh : forall j, in_bounds sh j = true -> length j = length sh.
+Proof.
+  induction sh as [|d sh IH]; intros [|k j] H; cbn in H; try discriminate; [reflexivity|].
+  apply andb_true_iff in H as [_ H]. cbn. f_equal. now apply IH.
+Qed.
+
+Lemma ext_of_repeat_false {A} (l : list A) : ext_of (repeat false (length l)) l = [].
+Proof. induction l as [|x l IH]; cbn; [reflexivity|exact IH]. Qed.
+Lemma int_of_repeat_false {A} (l : list A) : int_of (repeat false (length l)) l = l.
+Proof. induction l as [|x l IH]; cbn; [reflexivity|now rewrite IH]. Qed.
+Lemma merge_repeat_false {A} (e j : list A) : merge (repeat false (length j)) e j = j.
+Proof. revert e. induction j as [|x j IH]; intros e; cbn; [reflexivity|now rewrite IH]. Qed.
+Lemma map_repeat {A B} (f : A -> B) x n : map f (repeat x n) = repeat (f x) n.
+Proof. induction n as [|n IH]; cbn; [reflexivity|now rewrite IH]. Qed.
+Lemma key_ints_repeat n : key_ints (repeat KAll n) = [].
+Proof. induction n as [|n IH]; cbn; [reflexivity|exact IH]. Qed.
+
+(* the mask / fixed part / kept shape of a slice key *)
+Lemma slice_key_facts (sh : list nat) : forall q n, q < length sh ->
+  let key := slice_key (length sh) q n in
+  length key = length sh
+  /\ key_ints key = [n]
+  /\ ext_of (map key_is_int key) sh = [nth q sh 0]
+  /\ int_of (map key_is_int key) sh = remove_at q sh
+  /\ forall j, in_bounds (remove_at q sh) j = true -> n < nth q sh 0 ->
+       merge (map key_is_int key) [n] j = insert_at q n j /\ in_bounds sh (insert_at q n j) = true.
+Proof.
+  induction sh as [|d sh IH]; intros q n Hq; cbn in Hq; [lia|].
+  destruct q as [|q].
+  - cbn [length slice_key]. repeat split.
+    + cbn. now rewrite repeat_length.
+    + cbn. now rewrite key_ints_repeat.
+    + cbn. rewrite map_repeat. cbn. now rewrite ext_of_repeat_false.
+    + cbn. rewrite map_repeat. cbn. now rewrite int_of_repeat_false.
+    + cbn in H |- *. rewrite map_repeat. cbn [key_is_int].
+      rewrite <- (in_bounds_length _ _ H). now rewrite merge_repeat_false.
+    + cbn in H, H0 |- *. apply andb_true_iff. split; [now apply Nat.ltb_lt|assumption].
+  - assert (Hq' : q < length sh) by lia. destruct (IH q n Hq') as [H1 [H2 [H3 [H4 H5]]]].
+    cbn [length slice_key]. repeat split.
+    + cbn. now rewrite H1.
+    + cbn. exact H2.
+    + cbn. exact H3.
+    + cbn. now rewrite H4.
+    + cbn [remove_at firstn skipn app] in H. destruct j as [|k j]; [discriminate|].
+      cbn in H. apply andb_true_iff in H as [Hk Hj]. cbn in H0.
+      destruct (H5 j Hj H0) as [M _]. cbn. now rewrite M.
+    + cbn [remove_at firstn skipn app] in H. destruct j as [|k j]; [discriminate|].
+      cbn [in_bounds] in H. apply andb_true_iff in H as [Hk Hj]. cbn in H0.
+      destruct (H5 j Hj H0) as [_ B]. unfold insert_at in B |- *. cbn [firstn skipn app in_bounds].
+      now rewrite Hk, B.
+Qed.
+
+Lemma nd_get_in_bounds {A} (a : nd A) idx :
+  nd_wf a = true -> in_bounds (shp a) idx = true -> exists x, nd_get a idx = Some x.
+Proof.
+  intros Hwf Hb. unfold nd_get. rewrite Hb. unfold nd_wf in Hwf. apply Nat.eqb_eq in Hwf.
+  pose proof (ravel_lt _ _ Hb) as Hlt. rewrite <- Hwf in Hlt.
+  destruct (nth_error (dat a) (ravel (shp a) idx)) eqn:E; [now eexists|]. apply nth_error_None in E. lia.
+Qed.
+
+(* slicing dimension q at position n: the result has the shape without dimension q and its element at j
+   is the element of a at j completed by n at dimension q *)
+Theorem nd_index_slice {A} (a : nd A) q n :
+  nd_wf a = true -> q < length (shp a) -> n < nth q (shp a) 0 ->
+  exists b, nd_index a (slice_key (length (shp a)) q n) = Ok b
+            /\ shp b = remove_at q (shp a)
+            /\ forall j, in_bounds (shp b) j = true -> nd_get b j = nd_get a (insert_at q n j).
+Proof.
+  intros Hwf Hq Hn. destruct (slice_key_facts (shp a) q n Hq) as [H1 [H2 [H3 [H4 H5]]]].
+  unfold nd_index. rewrite H1, Nat.eqb_refl. cbn [negb]. rewrite H2, H3, H4.
+  assert (in_bounds [nth q (shp a) 0] [n] = true) as ->.
+  { cbn. apply andb_true_iff. split; [now apply Nat.ltb_lt|reflexivity]. }
+  cbn [negb].
+  set (f := fun j => match nd_get a (merge (map key_is_int (slice_key (length (shp a)) q n)) [n] j) with
+                     | Some x => Ok x | None => Err IndexError end).
+  destruct (mapM_total f (all_indices (remove_at q (shp a)))) as [d Hd].
+  { intros j Hj. apply all_indices_in_bounds in Hj. destruct (H5 j Hj Hn) as [M B].
+    destruct (nd_get_in_bounds a _ Hwf B) as [x Hx]. exists x. unfold f. now rewrite M, Hx. }
+  fold f. rewrite Hd. eexists. split; [reflexivity|]. cbn [shp]. split; [reflexivity|].
+  intros j Hj. unfold nd_get at 1. cbn [shp dat]. rewrite Hj.
+  apply mapM_inv in Hd. pose proof (all_indices_nth _ _ Hj) as Hnth.
+  destruct (Forall2_nth _ _ _ Hd _ _ Hnth) as [x [Hx Hf]]. rewrite Hx.
+  unfold f in Hf. destruct (H5 j Hj Hn) as [M _]. rewrite M in Hf.
+  destruct (nd_get a (insert_at q n j)); [now injection Hf as ->|discriminate].
+Qed.
+
+(* sel_returns_element, element level: with distinct coordinate values on dimension q, selecting by the
+   n-th value yields the array whose element at j is the element of a at (j completed by n at q) *)
+Theorem sel_returns_element {A} (a : nd A) q labels n v :
+  nd_wf a = true -> q < length (shp a) -> length labels = nth q (shp a) 0 ->
+  NoDup labels -> nth_error labels n = Some v ->
+  exists b, sel_label a q labels v = Ok b
+            /\ shp b = remove_at q (shp a)
+            /\ forall j, in_bounds (shp b) j = true -> nd_get b j = nd_get a (insert_at q n j).
+Proof.
+  intros Hwf Hq Hlen Hnd Hn. rewrite (sel_label_nth a q labels n v Hnd Hn).
+  apply nd_index_slice; [assumption..|]. rewrite <- Hlen. apply nth_error_Some. congruence.
+Qed.
+
+(* ================================================================ link to the denotation (Model/MapDenote.v) *)
+From Verif Require Import Model.MapRun Model.MapDenote.
+
+Lemma Forall2_nth_r {A B} (R : A -> B -> Prop) l r : Forall2 R l r ->
+  forall i b, nth_error r i = Some b -> exists a, nth_error l i = Some a /\ R a b.
+Proof.
+  induction 1 as [|x y l r Hxy H IH]; intros i b Hi; [now destruct i|].
+  destruct i as [|i]; cbn in *.
+  - injection Hi as <-. now exists x.
+  - now apply IH.
+Qed.
+
+Lemma Forall2_len {A B} (R : A -> B -> Prop) l r : Forall2 R l r -> length l = length r.
+Proof. induction 1; cbn; [reflexivity|now f_equal]. Qed.
+
+(* an array of the denotation of a mapped function holds, at every full index, the denoted element *)
+Lemma denote_mapped_get body f ms kw sh mask arrs jo a :
+  denote_mapped body f ms kw sh mask = Ok arrs -> nth_error arrs jo = Some a ->
+  shp a = sh /\ nd_wf a = true
+  /\ forall idx, in_bounds sh idx = true ->
+       exists x, nd_get a idx = Some x /\ denote_elem body f ms kw mask jo idx = Ok x.
+Proof.
+  unfold denote_mapped. destruct (ret_shape_ok body f ms kw sh mask); [|discriminate]. cbn [bind].
+  intros H Hn. apply mapM_inv in H.
+  destruct (Forall2_nth_r _ _ _ H _ _ Hn) as [jo' [Hjo Ha]].
+  rewrite nth_error_seq in Hjo. destruct (jo <? length (fouts f)); [|discriminate]. injection Hjo as <-.
+  cbn [Nat.add] in Ha.
+  destruct (mapM (denote_elem body f ms kw mask jo) (all_indices sh)) as [d|e] eqn:D; [|discriminate].
+  cbn [bind] in Ha. injection Ha as <-. cbn [shp dat].
+  pose proof (mapM_inv _ _ _ D) as F. split; [reflexivity|]. split.
+  - unfold nd_wf. cbn [shp dat]. apply Nat.eqb_eq.
+    rewrite <- (Forall2_len _ _ _ F). apply all_indices_length.
+  - intros idx Hb. unfold nd_get. cbn [shp dat]. rewrite Hb.
+    destruct (Forall2_nth _ _ _ F _ _ (all_indices_nth _ _ Hb)) as [x [Hx Hd]]. now exists x.
+Qed.
+
+(* sel_returns_element against the denotation: for a variable that is the jo-th output of a mapped
+   function, with distinct coordinate values on dimension q, the array selected by the n-th coordinate
+   value holds at every remaining index j exactly the denoted element at (j completed by n at q) *)
+Theorem sel_returns_denotation body f ms kw sh mask arrs jo a q labels n v :
+  denote_mapped body f ms kw sh mask = Ok arrs -> nth_error arrs jo = Some a ->
+  q < length sh -> length labels = nth q sh 0 -> NoDup labels -> nth_error labels n = Some v ->
+  exists b, sel_label a q labels v = Ok b
+            /\ shp b = remove_at q sh
+            /\ forall j, in_bounds (shp b) j = true ->
+                 exists x, nd_get b j = Some x
+                           /\ denote_elem body f ms kw mask jo (insert_at q n j) = Ok x.
+Proof.
+  intros Hden Hjo Hq Hlen Hnd Hn.
+  destruct (denote_mapped_get _ _ _ _ _ _ _ _ _ Hden Hjo) as [Hsh [Hwf Hget]].
+  assert (Hn' : n < nth q sh 0) by (rewrite <- Hlen; apply nth_error_Some; congruence).
+  destruct (sel_returns_element a q labels n v Hwf) as [b [Hb [Hs Hj]]]; try (rewrite Hsh; assumption); try assumption.
+  exists b. split; [assumption|]. rewrite Hsh in Hs. split; [assumption|].
+  intros j Hjb. rewrite (Hj j Hjb). apply Hget.
+  rewrite Hs in Hjb. destruct (slice_key_facts sh q n Hq) as [_ [_ [_ [_ H5]]]].
+  now destruct (H5 j Hjb Hn').
+Qed.
